@@ -76,6 +76,8 @@ def case(chk, i):
     named = [r for r in model.records]
     if len(named) < 3:
         return None
+    if max([G.scalar_count(r) for r in model.records] or [0]) > 400000:
+        return Verdict(HELD, "c10-%d" % i, obs={"oversized_models_not_executed": 1})
     try:
         hp = htypes.HeaderProbe(d, model)
     except Exception as ex:
